@@ -26,10 +26,13 @@ def diff_paths(a, b, path=()):
     return None
 
 
-def differential(spec, opts, absence):
-    """simulate(absence=L); remove_absence_time_list()  vs  simulate(absence=[])"""
+def differential(spec, opts, absence, pause=None):
+    """simulate(absence=L); remove_absence_time_list()  vs  simulate(absence=[]); with pause=k the first run is stopped at step k and continued with the same list"""
     m1 = runner.prepare(spec, opts)
     kw = runner.sim_kwargs(dict(opts, absence=list(absence)))
+    if pause is not None:
+        m1.project.simulate(**dict(kw, max_time=pause))
+        kw = dict(kw, initialize_state_info=False, initialize_log_info=False)
     m1.project.simulate(**kw)
     t_with = m1.project.time
     m1.project.remove_absence_time_list()
@@ -85,6 +88,22 @@ def work_diff(chunk):
                     col.violation({"property": "C10", "sig": classify_diff(absence, t_with, d, opts.get("rule")), "kind": "diff", "spec": spec, "opts": opts, "absence": list(absence),
                                    "detail": {"first_difference(path, after-remove, absence-free)": d, "makespan_with_absence": t_with}})
                 col.outcomes[(t_with - mk)] += 1
+                # the same list on a run that is stopped right after its first absence step and continued
+                k0 = min(absence) + 1
+                if not d and k0 < t_with:
+                    try:
+                        p1, p2, pt = differential(spec, opts, absence, pause=k0)
+                    except Exception as e:
+                        col.violation({"property": "C10", "sig": "C10:differential-raised:%s" % type(e).__name__, "kind": "diff", "spec": spec, "opts": opts, "absence": list(absence), "pause": k0, "detail": repr(e)})
+                        continue
+                    col.evaluations += 2
+                    col.checks["c10.differential-paused"] += 1
+                    col.transitions.add(hash((key, absence, "pause", k0)))
+                    if int(p1.project.status) == 1:
+                        dp = diff_paths(logs_only(p1), b)
+                        if dp:
+                            col.violation({"property": "C10", "sig": classify_diff(absence, pt, dp, opts.get("rule")) + ":run-stopped-and-continued", "kind": "diff", "spec": spec, "opts": opts, "absence": list(absence), "pause": k0,
+                                           "detail": {"first_difference(path, after-remove, absence-free)": dp, "paused_at": k0}})
         if len(col.samples) < 2:
             col.samples.append({"spec": spec, "opts": opts, "absence_lists": "all subsets of size <= %d of steps 0..%d plus %s" % (maxlen, mk + 1, list(extra_idx))})
     return col
@@ -189,7 +208,7 @@ def run(tier, seed):
 
 def replay(v):
     if v.get("kind") == "diff":
-        m1, m2, t_with = differential(v["spec"], v["opts"], v["absence"])
+        m1, m2, t_with = differential(v["spec"], v["opts"], v["absence"], pause=v.get("pause"))
         d = diff_paths(logs_only(m1), logs_only(m2))
-        return [{"sig": classify_diff(v["absence"], t_with, d, v["opts"].get("rule")), "detail": d}] if d else []
+        return [{"sig": classify_diff(v["absence"], t_with, d, v["opts"].get("rule")) + (":run-stopped-and-continued" if v.get("pause") is not None else ""), "detail": d}] if d else []
     return stepcheck.replay(v, MONS)
